@@ -24,6 +24,8 @@ import (
 	"sync"
 
 	"github.com/tobgu/qframe"
+	"github.com/tobgu/qframe/aggregation"
+	"github.com/tobgu/qframe/config/eval"
 	"github.com/tobgu/qframe/config/groupby"
 	"github.com/tobgu/qframe/config/newqf"
 	"github.com/tobgu/qframe/types"
@@ -101,6 +103,12 @@ func digestUnordered(qf qframe.QFrame) string {
 type op struct {
 	desc string
 	run  func() string
+	// share, when set, builds the operation from argument VALUES (clause, aggregation, instruction, order list,
+	// evaluation context) that are created once and then used by every goroutine that runs the operation: the
+	// operation is started twice in the multiset, and a new set of values is made for the run alone and for each
+	// concurrent repetition (so that nothing a first call may have done to them hides what a second, overlapping
+	// call sees).
+	share func() func() string
 }
 
 // kind: the operation name without its receiver, for the distribution counters
@@ -160,28 +168,96 @@ func initialFrame(r *hlib.Rng) qframe.QFrame {
 	return qframe.New(data, newqf.ColumnOrder("A", "B", "E", "F", "O", "S"), newqf.Enums(map[string][]string{"E": nil}))
 }
 
+// sharedOp: operations whose argument values are shared between the goroutines that run them
+func sharedOp(r *hlib.Rng, name string, qf qframe.QFrame) op {
+	switch r.Intn(7) {
+	case 0:
+		// an "in" list in no particular order, long enough for concurrent users to overlap
+		m := 8 + r.Intn(200)
+		perm := r.Perm(m)
+		return op{desc: fmt.Sprintf("%s.Filter(shared clause: A in <%d ints, unordered> or F in <floats> or S in <strings>)", name, m), share: func() func() string {
+			li := make([]int, m)
+			lf := make([]float64, m)
+			for i, p := range perm {
+				li[i] = p - 3
+				lf[i] = float64(m - p)
+			}
+			cl := qframe.Or(qframe.Filter{Column: "A", Comparator: "in", Arg: li},
+				qframe.Filter{Column: "F", Comparator: "in", Arg: lf},
+				qframe.Filter{Column: "S", Comparator: "in", Arg: []string{"c", "b", "a", "Ba"}},
+				qframe.Filter{Column: "E", Comparator: "in", Arg: []string{"éa", "b", "a"}})
+			return func() string {
+				return digestFrame(qf.Filter(cl)) + fmt.Sprint(li[:3], lf[:2])
+			}
+		}}
+	case 1:
+		sep := []string{",", "|", ""}[r.Intn(3)]
+		col := []string{"S", "E"}[r.Intn(2)]
+		key := []string{"A", "B", "O"}[r.Intn(3)]
+		return op{desc: fmt.Sprintf("%s.GroupBy(%s).Aggregate(shared aggregations: StrJoin(%q) %s, sum A, count)", name, key, sep, col), share: func() func() string {
+			aggs := []qframe.Aggregation{{Fn: aggregation.StrJoin(sep), Column: col, As: "J"}, {Fn: "sum", Column: "B", As: "T"}, {Fn: "count", Column: "F", As: "C"}}
+			cfg := []groupby.ConfigFunc{groupby.Columns(key)}
+			return func() string { return digestUnordered(qf.GroupBy(cfg...).Aggregate(aggs...)) }
+		}}
+	case 2:
+		return op{desc: name + ".Apply(shared instructions: A*2->X, str->Y, ToUpper(S)->U)", share: func() func() string {
+			ins := []qframe.Instruction{{Fn: func(x int) int { return 2 * x }, DstCol: "X", SrcCol1: "A"},
+				{Fn: func(x *string) *string { return x }, DstCol: "Y", SrcCol1: "S"},
+				{Fn: "ToUpper", DstCol: "U", SrcCol1: "S"}}
+			return func() string { return digestFrame(qf.Apply(ins...)) }
+		}}
+	case 3:
+		return op{desc: name + ".Sort(shared orders: S rev, E null last, B)", share: func() func() string {
+			ord := []qframe.Order{{Column: "S", Reverse: true}, {Column: "E", NullLast: true}, {Column: "B"}}
+			return func() string { return digestFrame(qf.Sort(ord...).Select("S", "E", "B")) }
+		}}
+	case 4:
+		return op{desc: name + ".Eval(shared expression and context: X = abs(A-B) + A*B)", share: func() func() string {
+			ctx := eval.NewDefaultCtx()
+			ex := qframe.Expr("+", qframe.Expr("abs", qframe.Expr("-", types.ColumnName("A"), types.ColumnName("B"))), qframe.Expr("*", types.ColumnName("A"), types.ColumnName("B")))
+			return func() string { return digestFrame(qf.Eval("X", ex, eval.EvalContext(ctx))) }
+		}}
+	case 5:
+		pat := []string{"%a%", "A%", "%B", "b.*a"}[r.Intn(4)]
+		return op{desc: fmt.Sprintf("%s.Filter(shared clause: Not(And(S ilike %q, E like %q)))", name, pat, pat), share: func() func() string {
+			cl := qframe.Not(qframe.And(qframe.Filter{Column: "S", Comparator: "ilike", Arg: pat}, qframe.Filter{Column: "E", Comparator: "like", Arg: pat}))
+			return func() string { return digestFrame(qf.Filter(cl)) }
+		}}
+	default:
+		return op{desc: name + ".FilteredApply(shared clause and instruction: B in <list>, B+1->B).Distinct(shared config)", share: func() func() string {
+			cl := qframe.Filter{Column: "B", Comparator: "in", Arg: []int{6, 1, 5, 0, 3}}
+			in := qframe.Instruction{Fn: func(x int) int { return x + 1 }, DstCol: "B", SrcCol1: "B"}
+			cfg := []groupby.ConfigFunc{groupby.Columns("B", "S"), groupby.Null(true)}
+			return func() string { return digestUnordered(qf.FilteredApply(cl, in).Distinct(cfg...).Select("B", "S")) }
+		}}
+	}
+}
+
 func randomOp(r *hlib.Rng, name string, qf qframe.QFrame, other qframe.QFrame) op {
 	n := qf.Len()
+	if r.Chance(1, 5) {
+		return sharedOp(r, name, qf)
+	}
 	switch r.Intn(20) {
 	case 0:
 		c := r.Intn(5)
-		return op{fmt.Sprintf("%s.Filter(A>%d)", name, c), func() string {
+		return op{desc: fmt.Sprintf("%s.Filter(A>%d)", name, c), run: func() string {
 			return digestFrame(qf.Filter(qframe.Filter{Column: "A", Comparator: ">", Arg: c}))
 		}}
 	case 1:
 		pat := []string{"%a%", "a%", "%A", "b", "%É%"}[r.Intn(5)]
 		col := []string{"S", "E"}[r.Intn(2)]
-		return op{fmt.Sprintf("%s.Filter(%s ilike %q)", name, col, pat), func() string {
+		return op{desc: fmt.Sprintf("%s.Filter(%s ilike %q)", name, col, pat), run: func() string {
 			return digestFrame(qf.Filter(qframe.Filter{Column: col, Comparator: "ilike", Arg: pat}))
 		}}
 	case 2:
 		pat := []string{"%a%", "a%", "%a", "B.*"}[r.Intn(4)]
 		col := []string{"S", "E"}[r.Intn(2)]
-		return op{fmt.Sprintf("%s.Filter(%s like %q)", name, col, pat), func() string {
+		return op{desc: fmt.Sprintf("%s.Filter(%s like %q)", name, col, pat), run: func() string {
 			return digestFrame(qf.Filter(qframe.Filter{Column: col, Comparator: "like", Arg: pat}))
 		}}
 	case 3:
-		return op{name + ".Filter(Or(A<2,Not(And(B>3,F<2))))", func() string {
+		return op{desc: name + ".Filter(Or(A<2,Not(And(B>3,F<2))))", run: func() string {
 			return digestFrame(qf.Filter(qframe.Or(
 				qframe.Filter{Column: "A", Comparator: "<", Arg: 2},
 				qframe.Not(qframe.And(qframe.Filter{Column: "B", Comparator: ">", Arg: 3}, qframe.Filter{Column: "F", Comparator: "<", Arg: 2.0})))))
@@ -189,19 +265,19 @@ func randomOp(r *hlib.Rng, name string, qf qframe.QFrame, other qframe.QFrame) o
 	case 4:
 		rev := r.Bool()
 		col := []string{"A", "B", "F", "S", "E", "O"}[r.Intn(6)]
-		return op{fmt.Sprintf("%s.Sort(%s rev=%v,B)", name, col, rev), func() string {
+		return op{desc: fmt.Sprintf("%s.Sort(%s rev=%v,B)", name, col, rev), run: func() string {
 			return digestFrame(qf.Sort(qframe.Order{Column: col, Reverse: rev}, qframe.Order{Column: "B"}).Select(col, "B"))
 		}}
 	case 5:
 		col := []string{"A", "S", "E", "O"}[r.Intn(4)]
 		nulleq := r.Bool() // with Null(false) every null-keyed row is its own key (random hash values)
-		return op{fmt.Sprintf("%s.Distinct(%s, null=%v)", name, col, nulleq), func() string {
+		return op{desc: fmt.Sprintf("%s.Distinct(%s, null=%v)", name, col, nulleq), run: func() string {
 			return digestUnordered(qf.Distinct(groupby.Columns(col), groupby.Null(nulleq)).Select(col))
 		}}
 	case 6:
 		col := []string{"A", "S", "E", "O"}[r.Intn(4)]
 		nulleq := r.Bool()
-		return op{fmt.Sprintf("%s.GroupBy(%s, null=%v).Aggregate(count B,sum A as T)", name, col, nulleq), func() string {
+		return op{desc: fmt.Sprintf("%s.GroupBy(%s, null=%v).Aggregate(count B,sum A as T)", name, col, nulleq), run: func() string {
 			g := qf.GroupBy(groupby.Columns(col), groupby.Null(nulleq))
 			return digestUnordered(g.Aggregate(qframe.Aggregation{Fn: "count", Column: "B", As: "C"},
 				qframe.Aggregation{Fn: func(x []int) int {
@@ -213,38 +289,38 @@ func randomOp(r *hlib.Rng, name string, qf qframe.QFrame, other qframe.QFrame) o
 				}, Column: "A", As: "T"}))
 		}}
 	case 7:
-		return op{name + ".GroupBy().Aggregate(max F)", func() string {
+		return op{desc: name + ".GroupBy().Aggregate(max F)", run: func() string {
 			return digestUnordered(qf.GroupBy().Aggregate(qframe.Aggregation{Fn: "max", Column: "F"}))
 		}}
 	case 8:
-		return op{name + ".Apply(A+1->X, ToUpper(S)->U)", func() string {
+		return op{desc: name + ".Apply(A+1->X, ToUpper(S)->U)", run: func() string {
 			return digestFrame(qf.Apply(
 				qframe.Instruction{Fn: func(x int) int { return x + 1 }, DstCol: "X", SrcCol1: "A"},
 				qframe.Instruction{Fn: "ToUpper", DstCol: "U", SrcCol1: "S"}))
 		}}
 	case 9:
-		return op{name + ".Apply(ToUpper(E)->E, const->K)", func() string {
+		return op{desc: name + ".Apply(ToUpper(E)->E, const->K)", run: func() string {
 			return digestFrame(qf.Apply(
 				qframe.Instruction{Fn: "ToUpper", DstCol: "E", SrcCol1: "E"},
 				qframe.Instruction{Fn: 5, DstCol: "K"}))
 		}}
 	case 10:
-		return op{name + ".Eval(X=A+B*A)", func() string {
+		return op{desc: name + ".Eval(X=A+B*A)", run: func() string {
 			return digestFrame(qf.Eval("X", qframe.Expr("+", types.ColumnName("A"), qframe.Expr("*", types.ColumnName("B"), types.ColumnName("A")))))
 		}}
 	case 11:
-		return op{name + ".FilteredApply(A>1, B*2->B)", func() string {
+		return op{desc: name + ".FilteredApply(A>1, B*2->B)", run: func() string {
 			return digestFrame(qf.FilteredApply(qframe.Filter{Column: "A", Comparator: ">", Arg: 1},
 				qframe.Instruction{Fn: func(x int) int { return 2 * x }, DstCol: "B", SrcCol1: "B"}))
 		}}
 	case 12:
 		a := r.Intn(n + 1)
 		b := a + r.Intn(n-a+1)
-		return op{fmt.Sprintf("%s.Slice(%d,%d).Copy(Z,A).Select(Z,S)", name, a, b), func() string {
+		return op{desc: fmt.Sprintf("%s.Slice(%d,%d).Copy(Z,A).Select(Z,S)", name, a, b), run: func() string {
 			return digestFrame(qf.Slice(a, b).Copy("Z", "A").Select("Z", "S"))
 		}}
 	case 13:
-		return op{name + ".views", func() string {
+		return op{desc: name + ".views", run: func() string {
 			var b strings.Builder
 			iv := qf.MustIntView("A")
 			for i := 0; i < iv.Len(); i++ {
@@ -262,30 +338,30 @@ func randomOp(r *hlib.Rng, name string, qf qframe.QFrame, other qframe.QFrame) o
 			return b.String()
 		}}
 	case 14:
-		return op{name + ".ToCSV", func() string {
+		return op{desc: name + ".ToCSV", run: func() string {
 			var buf bytes.Buffer
 			err := qf.ToCSV(&buf)
 			return fmt.Sprintf("%v|%s", err != nil, buf.String())
 		}}
 	case 15:
-		return op{name + ".ToJSON", func() string {
+		return op{desc: name + ".ToJSON", run: func() string {
 			var buf bytes.Buffer
 			err := qf.ToJSON(&buf)
 			return fmt.Sprintf("%v|%s", err != nil, buf.String())
 		}}
 	case 16:
-		return op{name + ".String", func() string { return qf.String() }}
+		return op{desc: name + ".String", run: func() string { return qf.String() }}
 	case 17:
-		return op{name + ".Equals(other)", func() string {
+		return op{desc: name + ".Equals(other)", run: func() string {
 			eq, _ := qf.Equals(other)
 			eq2, _ := qf.Equals(qf)
 			return fmt.Sprint(eq, eq2)
 		}}
 	case 18:
-		return op{name + ".WithRowNums(N).Drop(A)", func() string { return digestFrame(qf.WithRowNums("N").Drop("A")) }}
+		return op{desc: name + ".WithRowNums(N).Drop(A)", run: func() string { return digestFrame(qf.WithRowNums("N").Drop("A")) }}
 	default:
 		c := r.Intn(3)
-		return op{fmt.Sprintf("%s.Filter(S in, E=, F notnull, A!=%d inv)", name, c), func() string {
+		return op{desc: fmt.Sprintf("%s.Filter(S in, E=, F notnull, A!=%d inv)", name, c), run: func() string {
 			return digestFrame(qf.Filter(qframe.And(
 				qframe.Or(qframe.Filter{Column: "S", Comparator: "in", Arg: []string{"a", "b"}}, qframe.Filter{Column: "E", Comparator: "=", Arg: "c"}),
 				qframe.Filter{Column: "A", Comparator: "!=", Arg: c, Inverse: true})))
@@ -346,7 +422,7 @@ func main() {
 	s.CaseType = "N * bool"
 	s.CheckFn = "check_conc"
 	s.PerShard = 5000
-	s.Rule = fmt.Sprintf("multisets of 2-8 operations (Filter incl. like/ilike/in, Sort, Distinct, GroupBy+Aggregate, Apply incl. ToUpper, Eval, FilteredApply, Slice/Copy/Select/Drop, WithRowNums, views, ToCSV/ToJSON/String, Equals) on a frame of 0-60 rows and on frames derived from it (slices with spare capacity, sorted copy, projection); sequential digests vs 3 concurrent repetitions; race detector enabled=%v; non-trivial = at least 2 operations on frames with rows", raceEnabled)
+	s.Rule = fmt.Sprintf("multisets of 2-8 operations (one in five built from argument values - clause with unordered in-lists, aggregations incl. aggregation.StrJoin, instructions, order list, expression and evaluation context, group-by configuration - that are made once and shared by the 2-3 goroutines running that operation; Filter incl. like/ilike/in, Sort, Distinct, GroupBy+Aggregate, Apply incl. ToUpper, Eval, FilteredApply, Slice/Copy/Select/Drop, WithRowNums, views, ToCSV/ToJSON/String, Equals) on a frame of 0-60 rows and on frames derived from it (slices with spare capacity, sorted copy, projection); sequential digests vs 3 concurrent repetitions; race detector enabled=%v; non-trivial = at least 2 operations on frames with rows", raceEnabled)
 	root := hlib.NewRng(cfg.Seed).Fork()
 
 	if raceEnabled {
@@ -383,15 +459,34 @@ func main() {
 			{"qf.Filter(A>0)", base.Filter(qframe.Filter{Column: "A", Comparator: ">", Arg: 0})},
 		}
 		nops := 2 + r.Intn(7)
-		ops := make([]op, nops)
-		descs := make([]string, nops)
-		for i := range ops {
+		ops := []op{}
+		renew := []func(){}
+		for i := 0; i < nops; i++ {
 			fi := 0
 			if r.Chance(1, 2) {
 				fi = r.Intn(len(frames))
 			}
-			ops[i] = randomOp(r, frames[fi].name, frames[fi].qf, frames[r.Intn(len(frames))].qf)
+			o := randomOp(r, frames[fi].name, frames[fi].qf, frames[r.Intn(len(frames))].qf)
+			if o.share == nil {
+				ops = append(ops, o)
+				continue
+			}
+			// one set of argument values, used by 2-3 goroutines
+			var cur func() string
+			mk := o.share
+			renew = append(renew, func() { cur = mk() })
+			o.run = func() string { return cur() }
+			for k := 2 + r.Intn(2); k > 0; k-- {
+				ops = append(ops, o)
+			}
+		}
+		nops = len(ops)
+		descs := make([]string, nops)
+		for i := range ops {
 			descs[i] = ops[i].desc
+		}
+		for _, f := range renew {
+			f()
 		}
 		procs := []int{1, 2, 4, 8}[r.Intn(4)]
 		caseDesc := map[string]interface{}{"case": ci, "rows": n, "gomaxprocs": procs, "ops": descs}
@@ -418,6 +513,9 @@ func main() {
 			yields := make([]int, nops)
 			for i := range yields {
 				yields[i] = r.Intn(4)
+			}
+			for _, f := range renew {
+				f()
 			}
 			start := make(chan struct{})
 			var wg sync.WaitGroup
